@@ -240,6 +240,8 @@ def config_classes():
 def runs_plan(tier):
     focus = [('S45#focus:%s' % f, (KEY_CONFIGS[0], KEY_CONFIGS[4]) if tier == 'quick' else tuple(KEY_CONFIGS)) for f in ('outputs', 'source', 'meta', 'attachments')]
     focus.append(('Sprev#focus:prevmeta', (KEY_CONFIGS[0], KEY_CONFIGS[4], KEY_CONFIGS[2])))
+    focus += [('SprevL#focus:prevatt', (KEY_CONFIGS[0], KEY_CONFIGS[4])), ('SprevR#focus:prevatt', (KEY_CONFIGS[0], KEY_CONFIGS[4])), ('Sprev#focus:prevatt', (KEY_CONFIGS[0],)),
+              ('S44#focus:upgrade', (KEY_CONFIGS[0], KEY_CONFIGS[4], KEY_CONFIGS[2]))]
     focus += [('S45#focus:cellmix0', (KEY_CONFIGS[0], KEY_CONFIGS[4])), ('S45#focus:cellmix2', (KEY_CONFIGS[0], KEY_CONFIGS[4])),
               ('S45#lineruns3', (KEY_CONFIGS[4], KEY_CONFIGS[2], KEY_CONFIGS[0]))]
     if tier == 'quick':
